@@ -41,8 +41,8 @@ def copyOptimizer (f : Feedback α) (k : OptKind α) : Feedback α :=
   { f with optimizer := Optimizer.validated k (f.layers.reverse.map (fun l => stateVectors (Layer.ofInner l))) }
 
 /-- optimizer steps for one inner layer (position `i` counted from the end) -/
-def updateInner (o : Optimizer α) (i : Nat) (stepnr : Nat) (l : Inner α) (wg : Tensor α) (bg : Option (Tensor α)) :
-    Except Err (Optimizer α × Inner α) :=
+def updateInner (o : Optimizer α) (i : Nat) (stepnr : Nat) (l : InnerLayer α) (wg : Tensor α) (bg : Option (Tensor α)) :
+    Except Err (Optimizer α × InnerLayer α) :=
   match l with
   | .dense d =>
     match o.update i 0 false stepnr d.weights wg with
@@ -97,13 +97,13 @@ def updateInner (o : Optimizer α) (i : Nat) (stepnr : Nat) (l : Inner α) (wg :
   | .maxpool d => .ok (o, .maxpool d)
 
 /-- the parameters of an inner layer as a list of tensors (weights/kernels) and its bias -/
-def paramsOf : Inner α → Option (List (Tensor α) × Option (Tensor α))
+def paramsOf : InnerLayer α → Option (List (Tensor α) × Option (Tensor α))
   | .dense d => some ([d.weights], d.bias)
   | .conv d => some (d.kernels, none)
   | .deconv d => some (d.kernels, none)
   | .maxpool _ => none
 
-def setParams (l : Inner α) (ws : List (Tensor α)) (b : Option (Tensor α)) : Inner α :=
+def setParams (l : InnerLayer α) (ws : List (Tensor α)) (b : Option (Tensor α)) : InnerLayer α :=
   match l with
   | .dense d => .dense { d with weights := ws.headD d.weights, bias := match d.bias with | some _ => b | none => none }
   | .conv d => .conv { d with kernels := ws }
@@ -140,7 +140,7 @@ def update (f : Feedback α) (stepnr : Nat) (wgs : List (Tensor α)) (bgs : List
   let n := f.layers.length
   -- layers in reverse, gradient `i` belongs to the `i`-th layer from the end
   let stepped := (List.zip (List.range n) f.layers.reverse).foldl
-    (fun (st : Except Err (Optimizer α × List (Inner α))) il =>
+    (fun (st : Except Err (Optimizer α × List (InnerLayer α))) il =>
       match st with
       | .error e => .error e
       | .ok (o, ls) =>
@@ -159,7 +159,7 @@ def update (f : Feedback α) (stepnr : Nat) (wgs : List (Tensor α)) (bgs : List
   | .ok (o', revLayers) =>
     let layers := revLayers.reverse
     -- couple
-    let coupledLayers := f.coupled.foldl (fun (st : Except Err (List (Inner α))) group =>
+    let coupledLayers := f.coupled.foldl (fun (st : Except Err (List (InnerLayer α))) group =>
       match st with
       | .error e => .error e
       | .ok ls =>
@@ -371,45 +371,55 @@ structure LearnResult (α : Type) where
   valLoss : List α
   valAcc : List α
 
-/-- the epoch loop; `script` optionally replaces the measured validation loss of epoch `e`
-    (the `verif` hook), so that arbitrary trajectories can be driven through the stopping logic -/
-def learnLoop (inputs targets : List (Tensor α)) (validation : Option (List (Tensor α) × List (Tensor α) × Nat))
-    (batch : Nat) (script : List α) :
-    Nat → Nat → LearnResult α → Except Err (LearnResult α)
-  | 0, _, r => .ok r
-  | fuel+1, epoch, r =>
-    let batches := List.zip (L.chunks batch inputs) (L.chunks batch targets)
-    let run := batches.foldl (fun (st : Except Err (Network α × α)) b =>
-      match st with
-      | .error e => .error e
-      | .ok (n, lossEpoch) =>
-        match n.trainBatch epoch (b.1.zip b.2) with
-        | .error e => .error e
-        | .ok (n', m) => .ok (n', lossEpoch + m)) (.ok (r.net, 0))
-    match run with
+/-- the control skeleton of `learn`: run `step` for epoch `e`, then ask `stop`; at most `fuel` epochs -/
+def epochLoop {S : Type} (step : Nat → S → Except Err S) (stop : Nat → S → Except Err Bool) :
+    Nat → Nat → S → Except Err S
+  | 0, _, s => .ok s
+  | fuel+1, e, s =>
+    match step e s with
+    | .error x => .error x
+    | .ok s' =>
+      match stop e s' with
+      | .error x => .error x
+      | .ok true => .ok s'
+      | .ok false => epochLoop step stop fuel (e + 1) s'
+
+/-- one epoch: every batch in order (one update each), the epoch's training loss, then — when
+    validation data is given — one validation entry.  `script` optionally replaces the measured
+    validation loss of epoch `e` (the `verif` hook). -/
+def epochStep (inputs targets : List (Tensor α)) (validation : Option (List (Tensor α) × List (Tensor α) × Nat))
+    (batch : Nat) (script : List α) (epoch : Nat) (r : LearnResult α) : Except Err (LearnResult α) :=
+  let batches := List.zip (L.chunks batch inputs) (L.chunks batch targets)
+  let run := batches.foldl (fun (st : Except Err (Network α × α)) b =>
+    match st with
     | .error e => .error e
     | .ok (n, lossEpoch) =>
-      let r1 : LearnResult α := { r with net := n, trainLoss := r.trainLoss ++ [lossEpoch / ofNat' batches.length] }
-      let r2 : Except Err (LearnResult α) :=
-        match validation with
-        | none => .ok r1
-        | some (vi, vt, _) =>
-          match n.validate vi vt (lit 1 (-6)) with
-          | .error e => .error e
-          | .ok (n', l, a) =>
-            let l' := match L.get? script (epoch - 1) with | some s => s | none => l
-            .ok { r1 with net := n', valLoss := r1.valLoss ++ [l'], valAcc := r1.valAcc ++ [a] }
-      match r2 with
+      match n.trainBatch epoch (b.1.zip b.2) with
       | .error e => .error e
-      | .ok r2 =>
-        let stop : Except Err Bool :=
-          match validation with
-          | some (_, _, threshold) => shouldStop threshold epoch r2.valLoss
-          | none => .ok false
-        match stop with
-        | .error e => .error e
-        | .ok true => .ok r2
-        | .ok false => learnLoop inputs targets validation batch script fuel (epoch + 1) r2
+      | .ok (n', m) => .ok (n', lossEpoch + m)) (.ok (r.net, 0))
+  match run with
+  | .error e => .error e
+  | .ok (n, lossEpoch) =>
+    let r1 : LearnResult α := { r with net := n, trainLoss := r.trainLoss ++ [lossEpoch / ofNat' batches.length] }
+    match validation with
+    | none => .ok r1
+    | some (vi, vt, _) =>
+      match n.validate vi vt (lit 1 (-6)) with
+      | .error e => .error e
+      | .ok (n', l, a) =>
+        let l' := match L.get? script (epoch - 1) with | some s => s | none => l
+        .ok { r1 with net := n', valLoss := r1.valLoss ++ [l'], valAcc := r1.valAcc ++ [a] }
+
+/-- the early-stopping decision after an epoch -/
+def stopAfter (validation : Option (List (Tensor α) × List (Tensor α) × Nat)) (epoch : Nat) (r : LearnResult α) :
+    Except Err Bool :=
+  match validation with
+  | some (_, _, threshold) => shouldStop threshold epoch r.valLoss
+  | none => .ok false
+
+def learnLoop (inputs targets : List (Tensor α)) (validation : Option (List (Tensor α) × List (Tensor α) × Nat))
+    (batch : Nat) (script : List α) (fuel epoch : Nat) (r : LearnResult α) : Except Err (LearnResult α) :=
+  epochLoop (epochStep inputs targets validation batch script) (stopAfter validation) fuel epoch r
 
 /-- `Network::learn` -/
 def learn (n : Network α) (inputs targets : List (Tensor α))
